@@ -28,7 +28,7 @@ __CPROVER_requires((self->_peerIndex.has && self->_peerIndex.val == s->id) ==> (
 /* GAUGE an open session is counted */ \
 __CPROVER_requires(self->_atomicStats.sessionsCurrent >= 1) \
 __CPROVER_requires(G_closeCb_calls < IORA_SAT && G_close_calls < IORA_SAT && G_delEpoll_calls < IORA_SAT) \
-__CPROVER_assigns(s->closed, self->_peerIndex, self->_sessions.has, self->_sessions.val, self->_tags, \
+__CPROVER_assigns(s->closed, self->_peerIndex, self->_sessions.has, self->_tags, \
                   self->_atomicStats.closed, self->_atomicStats.sessionsCurrent, self->_cbMutex.held, self->_sessionRwMutex.held, \
                   G.cl) \
 __CPROVER_frees(s)
@@ -39,7 +39,7 @@ CLOSENOW_PRE_AND_FRAME
 /* X1b carrying this session's id and the reason */ __CPROVER_ensures(CN_CBSET ==> (G_closeCb_sid == CN_SID0 && G_closeCb_why == why))
 /* X2a erased from the table BEFORE the application was told */ __CPROVER_ensures(CN_CBSET ==> G_closeCb_erased)
 /* X2b erased from the table */ __CPROVER_ensures(CN_SID0 == GSID ==> !self->_sessions.has)
-/* X2c table frame: other ids keep their entry */ __CPROVER_ensures(CN_SID0 != GSID ==> (self->_sessions.has == __CPROVER_old(self->_sessions.has) && self->_sessions.val == __CPROVER_old(self->_sessions.val)))
+/* X2c table frame: other ids keep their entry */ __CPROVER_ensures(CN_SID0 != GSID ==> self->_sessions.has == __CPROVER_old(self->_sessions.has))
 /* X3a closed counter +1 exactly once */ __CPROVER_ensures(self->_atomicStats.closed == __CPROVER_old(self->_atomicStats.closed) + 1)
 /* X3b gauge -1 exactly once, never below zero */ __CPROVER_ensures(self->_atomicStats.sessionsCurrent == __CPROVER_old(self->_atomicStats.sessionsCurrent) - 1)
 /* U1 peer-index FRAME: an entry that maps to ANOTHER session is left alone (C06: closing some other session never redirects) */ __CPROVER_ensures((__CPROVER_old(self->_peerIndex.has) && __CPROVER_old(self->_peerIndex.val) != CN_SID0) ==> (self->_peerIndex.has && self->_peerIndex.val == __CPROVER_old(self->_peerIndex.val)))
